@@ -1118,6 +1118,10 @@ fn c14(idx: usize, ctx: &Ctx, rpt: &mut Report) {
         format!("{}/{}", wax::escape(&prefix), g)
     };
     walkgen::steer(&mut rng, &mut spec, &g, 3);
+    // From the empty base a glob may begin with the current-directory component (`./a/*`): the
+    // joined root keeps the leading `.`, so such a glob does yield entries there.
+    let dot_led = !rooted && idx % 11 == 3 && !expr.is_empty() && rng.chance(1, 2);
+    let expr = if dot_led { format!("./{}", expr) } else { expr };
     ctx.begin(idx, &format!("walk {}", expr));
     let glob = match Glob::new(&expr) {
         Ok(g) => g,
@@ -1130,6 +1134,9 @@ fn c14(idx: usize, ctx: &Ctx, rpt: &mut Report) {
         Ok(b) => b,
         Err(_) => return,
     };
+    if dot_led {
+        rpt.bucket("glob:led-by-the-current-directory-component(empty base)");
+    }
     let mut bases = walkgen::base_spellings(&root, &cwd);
     // The empty base with the working directory inside the tree is exercised by C14 alone.
     let base = if !rooted && idx % 11 == 3 {
@@ -1230,7 +1237,12 @@ fn c15(idx: usize, ctx: &Ctx, rpt: &mut Report) {
     let dirs = spec.dirs();
     let prefix = if !dirs.is_empty() && idx % 3 != 0 { rng.pick(&dirs).clone() } else { String::new() };
     let path_walk = idx % 5 == 0;
-    let g = if idx % 2 == 0 { (*rng.pick(&["**", "**/*", "*", "*/*", "**/a", "**/*.*", "*/**", "", "**"])).to_string() } else { walkgen::walk_glob(&mut rng, &spec) };
+    let g = if idx % 2 == 0 {
+        (*rng.pick(&["**", "**/*", "*", "*/*", "**/a", "**/*.*", "*/**", "", "**", "<b/:0,2>c", "<*/:0,2>*", "<*/:0,1>*.txt", "{a,b/c}", "<*/:1,2>*", "<zz/:0,3>*"])).to_string()
+    }
+    else {
+        walkgen::walk_glob(&mut rng, &spec)
+    };
     let expr = if prefix.is_empty() || g.is_empty() { g.clone() } else { format!("{}/{}", wax::escape(&prefix), g) };
     walkgen::steer(&mut rng, &mut spec, &g, 2);
     let prefix_len = if prefix.is_empty() || g.is_empty() { 0 } else { prefix.split('/').count() };
@@ -1256,8 +1268,7 @@ fn c15(idx: usize, ctx: &Ctx, rpt: &mut Report) {
         walkgen::depth_behaviour(&mut rng, 5)
     };
     let link = if rng.chance(1, 2) { LinkBehavior::ReadTarget } else { LinkBehavior::ReadFile };
-    let behaviour = WalkBehavior { depth, link };
-    ctx.begin(idx, &format!("walk {} {:?}", expr, behaviour));
+    ctx.begin(idx, &format!("walk {} {:?} {:?}", expr, depth, link));
     let glob = if path_walk {
         None
     }
@@ -1267,6 +1278,26 @@ fn c15(idx: usize, ctx: &Ctx, rpt: &mut Report) {
             Err(_) => return,
         }
     };
+    // One glob walk in six: bounds given relative to the least depth the glob reports
+    // (`bounded_at_depth_variance`); the window is the given bounds moved by `depth()`'s lower
+    // bound, read through the public query.
+    let (depth, window, ctor) = match &glob {
+        Some(g) if rng.chance(1, 6) => {
+            let a = rng.below(4);
+            let b = rng.below(4);
+            let (lo, hi) = (a.min(b), a.max(b));
+            match guarded(|| {
+                let dv = g.depth();
+                let least = crate::monitors::group_a::depth_bounds(&dv).0;
+                (DepthBehavior::bounded_at_depth_variance(Some(lo), Some(hi), dv), least)
+            }) {
+                Some((Some(d), least)) => (d, (lo + least, Some(hi + least)), "DepthBehavior::bounded_at_depth_variance"),
+                _ => (depth, window, ctor),
+            }
+        },
+        _ => (depth, window, ctor),
+    };
+    let behaviour = WalkBehavior { depth, link };
     if !spec.raw.is_empty() {
         rpt.bucket("trees:with-names-that-are-not-utf8");
     }
@@ -1627,6 +1658,26 @@ fn c20(idx: usize, ctx: &Ctx, rpt: &mut Report, enumerated: usize) {
             json!({"case": wit(), "missing_errors": short(&missing), "unexpected_errors": short(&extra)}),
         );
         return;
+    }
+    // The documented conversion into `io::Error` (what `?` in a function returning `io::Result`
+    // does) still names the offending path: the converted error carries the walk error with the
+    // same path and depth, and its text mentions the path.
+    for it in bare.items.iter().filter(|i| i.is_err) {
+        if let (Some(path), Some((text, carried))) = (&it.path, &it.io_error) {
+            rpt.evaluations += 1;
+            rpt.bucket("error-items-converted-into-io-errors");
+            let names_path = text.contains(&format!("{:?}", path)) || text.contains(&*path.to_string_lossy());
+            let carries = carried.as_ref().map_or(false, |(p, d)| p.as_ref() == Some(path) && *d == it.depth);
+            if !names_path || !carries {
+                rpt.disagreement(
+                    &ctx.known,
+                    "error-converted-into-io-error-no-longer-names-the-offending-path",
+                    None,
+                    json!({"case": wit(), "path": path.to_string_lossy(), "walk_error": it.error, "io_error": text, "carried_walk_error": carried.as_ref().map(|(p, d)| json!([p.as_ref().map(|p| p.to_string_lossy().to_string()), d]))}),
+                );
+                return;
+            }
+        }
     }
     // The readable part is walked completely.
     let exp_ok = multiset(model.oks().filter(|e| e.depth >= min_depth).map(|e| e.path.clone()));
